@@ -163,7 +163,11 @@ def check_single_pass_expansion(ctx, mods) -> None:
                     if isinstance(it, ast.Call) and call_name(it) == "sorted":
                         continue
                     over_mapping = it is not None and any(isinstance(x, ast.Name) and x.id == d for x in ast.walk(it))
-                    if not over_mapping:
+                    # a loop over a SET visits its members in hash order: a context that grows in such a loop is loop-carried as well
+                    # (seed C15-13: the names of DEFAULTS made a set, the expansion context the launch values gathered so far)
+                    it_val = match.resolve_local(fn, it) if it is not None else None
+                    over_set = isinstance(it_val, (ast.Set, ast.SetComp)) or (isinstance(it_val, ast.Call) and call_name(it_val) in ("set", "frozenset"))
+                    if not over_mapping and not over_set:
                         continue
                     for x in ast.walk(lp):
                         if isinstance(x, (ast.Assign, ast.AugAssign)):
@@ -182,7 +186,7 @@ def check_single_pass_expansion(ctx, mods) -> None:
                        "the context '%s' is not modified while the mapping is iterated (expansion against a snapshot)" % d if carried is None else
                        "single-pass substitution with context '%s' inside a loop over '%s' that also stores into it (%s): keys "
                        "visited later see already-expanded values of earlier keys, so two equal documents that list the keys in a "
-                       "different order resolve differently" % (d, d, short(carried, 60)),
+                       "different order (or, for a set, two runs with a different hash seed) resolve differently" % (d, d if not isinstance(lp, ast.For) else short(lp.iter, 40), short(carried, 60)),
                        construct="%s: %s" % (q, short(c, 80)))
     ctx.floor(rule, n, 2, "single-pass substitution calls")
 
